@@ -213,12 +213,14 @@ def store_case(ops):
     return vios, flags
 
 
-def spacing_case(spacing_ms, which_route, fast):
+def spacing_case(spacing_ms, which_route, fast, only_first=False):
     from vf.drive import session
     from vf.gen import candles as gc
     rows = {s: gc.prng_rows(3 + i, 30, 0.5, 400) for i, s in enumerate(['BTC-USDT', 'ETH-USDT'])}
     bad = ['BTC-USDT', 'ETH-USDT'][which_route]
-    if spacing_ms != MIN:
+    if spacing_ms != MIN and only_first:
+        rows[bad][0][0] = rows[bad][1][0] - spacing_ms  # only the first two candles are badly spaced; the rest is minute by minute
+    elif spacing_ms != MIN:
         for i, r in enumerate(rows[bad]):
             r[0] = rows[bad][0][0] + i * spacing_ms if i else r[0]
     script = dict(rows=[{'act': 'none'}], tick=0.5, unit=0.1)
@@ -243,7 +245,7 @@ def replay(case):
     if k == 'store':
         return store_case(case['ops'])[0]
     if k == 'spacing':
-        return spacing_case(case['spacing_ms'], case['which_route'], case['fast'])
+        return spacing_case(case['spacing_ms'], case['which_route'], case['fast'], case.get('only_first', False))
     raise ValueError(k)
 
 
@@ -312,13 +314,13 @@ def run_shard(acc, shard, nshards, seed, tier):
                       describe=lambda ops: dict(kind='store', ops=ops))
 
     spacings = [MIN, 0, 1, 30_000, 59_999, 60_001, 120_000, 300_000, -60_000, 3_600_000]
-    combos = [(s, w, f) for s in spacings for w in (0, 1) for f in (False, True)]
-    for i, (s, w, f) in enumerate(combos):
+    combos = [(s, w, f, o) for s in spacings for w in (0, 1) for f in (False, True) for o in (False, True)]
+    for i, (s, w, f, o) in enumerate(combos):
         if i % nshards != shard:
             continue
-        vios = spacing_case(s, w, f)
-        acc.case(key=('spacing', s, w, f), nontrivial=s != MIN, classes=['spacing'], sub='backtest-spacing',
-                 sample=dict(kind='spacing', spacing_ms=s, which_route=w, fast=f) if i % 7 == 0 else None)
+        vios = spacing_case(s, w, f, o)
+        acc.case(key=('spacing', s, w, f, o), nontrivial=s != MIN, classes=['spacing'], sub='backtest-spacing',
+                 sample=dict(kind='spacing', spacing_ms=s, which_route=w, fast=f, only_first=o) if i % 7 == 0 else None)
         for sig, msg in vios:
-            acc.violation(sig, msg, dict(kind='spacing', spacing_ms=s, which_route=w, fast=f))
-    acc.mark_exhaustive('backtest-spacing', f'{len(spacings)} spacings x first/second route x both simulators')
+            acc.violation(sig, msg, dict(kind='spacing', spacing_ms=s, which_route=w, fast=f, only_first=o))
+    acc.mark_exhaustive('backtest-spacing', f'{len(spacings)} spacings x first/second route x both simulators x (all candles / only the leading pair badly spaced)')
